@@ -3,8 +3,13 @@
    per operation, the result, the user-visible calls (constructor / finaliser / delFunc, in
    order), Cache.Nodes(), Cache.Size(), lru.used and Cache.Capacity(); and at dump steps the
    whole table (ns, key, ref, size, CacheData state, value present) and the LRU recency list.
-   Depends on the model file only. *)
-From GL Require Import Conc.Cache.
+   Second part: the node table (Conc/CacheTable.v instantiated with the generated constants and
+   murmur32) against the real mHead/mBucket structure — per operation the result (node identity,
+   created / found / none / removed, enumeration order), GetStats' Nodes / GrowCount / ShrinkCount /
+   Buckets, after every change the chain of heads (mask, predecessor, resizeInProgress, overflow, bucket
+   states) and at sampled points the whole layout with node identities — and murmur32 values.
+   Depends on model files and Gen/InstC17.v only. *)
+From GL Require Import Conc.Cache Conc.CacheTable Gen.InstC17.
 
 (* user-visible calls *)
 Inductive xev :=
@@ -67,7 +72,88 @@ Inductive kstep :=
 | K (o : op) (r : out) (evs : list xev) (nodes size used : Z) (cap : N)
 | KD (nodes : option (list ninfo)) (order : list (N * N)).
 
-Inductive c17case := Case (cacher : bool) (cap : N) (steps : list kstep).
+(* ---- the node table (Conc/CacheTable.v with the generated constants and murmur32): the real table
+   (leveldb/cache, nil cacher) is driven through Cache.Get / Handle.Release and the verif exports; after
+   every operation the harness reads the chain of heads and emits, before the observation, the
+   background steps (initBucket of single buckets, end of initBuckets) that the goroutine
+   `go nh.initBuckets()` — or the harness itself, through VerifInitBucket — performed meanwhile. *)
+Inductive tkstep :=
+| TK (o : top) (r : tres) (nodes : Z) (ngrow nshrink nbuckets : N)
+                            (* operation, its result, GetStats().Nodes / GrowCount / ShrinkCount / Buckets after it *)
+| TB (o : top) (enabled : bool)           (* background step (forced or inferred) *)
+| TS (heads : list (N * bool * bool * Z * N))
+                            (* per head, newest first: mask, predecessor != nil, resizeInProgress, overflow,
+                               bucket states as a base-4 number (bucket 0 = lowest digit) *)
+| TL (lay : list (N * bool * bool * Z * list (N * list N))).    (* the whole layout with node ids *)
+
+Definition tstep17 := tstep cache_hash cache_tp.
+Definition tinit17 := tinit cache_tp.
+
+Definition nlist_eqb (a b : list N) : bool := list_eqb N.eqb a b.
+Definition tres_eqb (a b : tres) : bool :=
+  match a, b with
+  | RNode i c, RNode i' c' => (i =? i') && Bool.eqb c c'
+  | RNone, RNone => true
+  | RDel d, RDel d' => Bool.eqb d d'
+  | REnum l, REnum l' => nlist_eqb l l'
+  | RBg e, RBg e' => Bool.eqb e e'
+  | RSpin, RSpin => true
+  | RTPanic, RTPanic => true
+  | _, _ => false
+  end.
+
+(* the codes the harness reports are Go's bucketUninitialized / Initialized / Frozen *)
+Definition gocode (s : bstate) : N :=
+  match s with
+  | BUninit => fst (fst cache_bcodes) | BInit => snd (fst cache_bcodes) | BFrozen => snd cache_bcodes
+  end.
+Definition states_num (h : head) : N := fold_right (fun b a => gocode (b_state b) + 4 * a) 0 (h_buckets h).
+Definition head_sum (h : head) : N * bool * bool * Z * N :=
+  (h_mask h, h_pred h, h_resizing h, h_overflow h, states_num h).
+Definition head_sum_eqb (a b : N * bool * bool * Z * N) : bool :=
+  match a, b with
+  | (m, p, r, o, s), (m', p', r', o', s') => (m =? m') && Bool.eqb p p' && Bool.eqb r r' && (o =? o')%Z && (s =? s')
+  end.
+Definition blay_eqb (a b : N * list N) : bool := (fst a =? fst b) && nlist_eqb (snd a) (snd b).
+Definition hlay_eqb (a b : N * bool * bool * Z * list (N * list N)) : bool :=
+  match a, b with
+  | (m, p, r, o, l), (m', p', r', o', l') =>
+      (m =? m') && Bool.eqb p p' && Bool.eqb r r' && (o =? o')%Z && list_eqb blay_eqb l l'
+  end.
+Definition golayout (t : table) : list (N * bool * bool * Z * list (N * list N)) :=
+  map (fun h => (h_mask h, h_pred h, h_resizing h, h_overflow h,
+                 map (fun b => (gocode (b_state b), map tn_id (b_nodes b))) (h_buckets h))) (t_heads t).
+
+Definition tcheck_step (t : table) (k : tkstep) : table * bool :=
+  match k with
+  | TK o r nn g sh nb =>
+      let (t', r') := tstep17 t o in
+      (t', tres_eqb r' r && (t_nodes t' =? nn)%Z && (t_ngrow t' =? g) && (t_nshrink t' =? sh) &&
+           (match t_heads t' with h :: _ => hlen h =? nb | [] => false end))
+  | TB o e => let (t', r') := tstep17 t o in (t', tres_eqb r' (RBg e))
+  | TS hs => (t, list_eqb head_sum_eqb (map head_sum (t_heads t)) hs)
+  | TL l => (t, list_eqb hlay_eqb (golayout t) l)
+  end.
+
+Fixpoint tfirst_bad (t : table) (i : N) (l : list tkstep) : option N :=
+  match l with
+  | [] => None
+  | k :: l' => let (t', ok) := tcheck_step t k in if ok then tfirst_bad t' (i + 1) l' else Some i
+  end.
+
+(* murmur32: (ns, key, seed, value computed by the Go function) *)
+Definition hcheck (q : N * N * N * N) : bool :=
+  match q with (ns, key, seed, h) => murmur32 cache_hc ns key seed =? h end.
+Fixpoint hfirst_bad (i : N) (l : list (N * N * N * N)) : option N :=
+  match l with
+  | [] => None
+  | q :: l' => if hcheck q then hfirst_bad (i + 1) l' else Some i
+  end.
+
+Inductive c17case :=
+| Case (cacher : bool) (cap : N) (steps : list kstep)
+| TCase (steps : list tkstep)
+| HCase (l : list (N * N * N * N)).
 
 Definition check_step (s : state) (k : kstep) : state * bool :=
   match k with
@@ -90,7 +176,11 @@ Fixpoint first_bad (s : state) (i : N) (l : list kstep) : option N :=
   end.
 
 Definition case_bad (c : c17case) : option N :=
-  match c with Case cacher cap steps => first_bad (init cacher cap) 0 steps end.
+  match c with
+  | Case cacher cap steps => first_bad (init cacher cap) 0 steps
+  | TCase steps => tfirst_bad tinit17 0 steps
+  | HCase l => hfirst_bad 0 l
+  end.
 
 Definition run_case (c : c17case) : bool :=
   match case_bad c with None => true | Some _ => false end.
